@@ -1,4 +1,5 @@
 //@host src/io_loop/mod.rs
+//@quick (generic sweep without wall-clock dependence: also runs in the quick tier, labelled bounded)
 // C04 bounded stand-in, end to end through the public API (real I/O thread, in-memory broker): three channels used concurrently from three
 // threads, each issuing a sequence of different synchronous operations (purge, declare, delete, consume+cancel, get-empty, qos); all answers
 // are withheld until every thread's request of the round has reached the broker, then the broker answers in each of the 6 orders across
